@@ -6,6 +6,15 @@ namespace Ckl.C10S
 open Ckl Ckl.C05
 
 
+theorem R2.dateResM (r : DateRes) (pos : Pos) : GI (dateResM r pos) := by
+  unfold Ckl.dateResM; r2_auto
+macro_rules | `(tactic| r2_lemma) => `(tactic| exact R2.dateResM _ _)
+
+theorem R2.callDate (name : String) (args : List (String × RVal)) (pos : Pos) (m : EvalM RVal)
+    (h : callDate name args pos = some m) : GI m := by
+  unfold Ckl.callDate at h
+  split at h <;> first | (injection h with h; subst h; exact R2.dateResM _ _) | (cases h)
+
 theorem R2.nativeAdd (a b : RVal) (pos : Pos) : GI (nativeAdd a b pos) := by
   unfold Ckl.nativeAdd; r2_auto
 macro_rules | `(tactic| r2_lemma) => `(tactic| exact R2.nativeAdd _ _ _)
@@ -38,7 +47,7 @@ theorem R2.callPure (name : String) (args : List (String × RVal)) (d : Option R
     (m : EvalM RVal) (h : callPure name args d pos = some m) : GI m := by
   unfold Ckl.callPure at h
   split at h
-  all_goals (cases h)
+  all_goals first | (cases h) | (exact R2.callDate _ _ _ _ h)
   all_goals r2_auto
   all_goals (simp only [rm_wg]; r2_auto)
 
